@@ -86,6 +86,26 @@ DP16 = _dp16()
 assert len(DP16) == 23
 
 
+def rand_dp32(rng):
+    lo = lambda: rng.randrange(0, 6)
+    ops = [0, 1, 2, 3, 4, 8, 10, 11, 13, 14]
+    k = rng.randrange(7)
+    if k == 0:      # data-processing (shifted register)
+        return 0xEA000000 | rng.choice(ops) << 21 | rng.getrandbits(1) << 20 | lo() << 16 | rng.getrandbits(3) << 12 | lo() << 8 | rng.getrandbits(2) << 6 | rng.getrandbits(2) << 4 | lo()
+    if k == 1:      # data-processing (modified immediate)
+        return 0xF0000000 | rng.getrandbits(1) << 26 | rng.choice(ops) << 21 | rng.getrandbits(1) << 20 | lo() << 16 | rng.getrandbits(3) << 12 | lo() << 8 | rng.getrandbits(8)
+    if k == 2:      # ADDW / SUBW / MOVW / MOVT
+        return 0xF2000000 | rng.getrandbits(1) << 26 | rng.choice([0b00000, 0b01010, 0b00100, 0b01100]) << 20 | lo() << 16 | rng.getrandbits(3) << 12 | lo() << 8 | rng.getrandbits(8)
+    if k == 3:      # LSL/LSR/ASR/ROR (register), 32-bit
+        return 0xFA00F000 | rng.getrandbits(2) << 21 | rng.getrandbits(1) << 20 | lo() << 16 | lo() << 8 | lo()
+    if k == 4:      # SXTH/UXTH/SXTB/UXTB with rotation
+        return 0xFA0FF080 | rng.choice([0, 1, 4, 5]) << 20 | lo() << 8 | rng.getrandbits(2) << 4 | lo()
+    if k == 5:      # MUL / MLA
+        return 0xFB000000 | lo() << 16 | rng.choice([15, lo()]) << 12 | lo() << 8 | lo()
+    rm = lo()
+    return 0xFAB0F080 | rm << 16 | lo() << 8 | rm        # CLZ (Rm in both fields)
+
+
 def _flags_change_outside(word, regs, nzcv):
     """run the 16-bit instruction outside any IT block on the real emulator: does it change NZCV and the destination?"""
     cfg = {'arch_version': 7, 'memory_system_architecture': 'PMSA', 'have_security_ext': False}
@@ -136,7 +156,7 @@ def gen(item, rng, tier):
                 rt = rng.randrange(0, 6)
                 slots.append({'t': 'ldr_deny' if load else 'str_deny', 'w': T.ldst_imm('ldr' if load else 'str', rt, 7, rng.randrange(0, 8)), 'rt': rt})
             continue
-        choices = ['mov', 'mov', 'dp16', 'dp16', 'dp16', 'movw', 'addw', 'str', 'ldr', 'mrs', 'ldrw', 'strw']
+        choices = ['mov', 'mov', 'dp16', 'dp16', 'dp16', 'movw', 'addw', 'str', 'ldr', 'mrs', 'ldrw', 'strw', 'rand32', 'rand32']
         if not (kind == 'udf' and special is not None and i < special):
             choices.append('cmp')           # a CMP before the UDF slot would invalidate its static pass/fail
         if last and rng.random() < 0.3:
@@ -164,6 +184,10 @@ def gen(item, rng, tier):
             slots.append({'t': 'mov', 'w': T.mov_w(rd, imm), 'rd': rd, 'imm': imm})
         elif t == 'addw':
             slots.append({'t': 'chg', 'w': T.add_w(rd, rd, 0x11 + i), 'rd': rd})
+        elif t == 'rand32':
+            # a seeded member of the 32-bit Thumb data-processing families (registers r0-r5 only, so no UNPREDICTABLE forms):
+            # checked for 'failing condition => no register, flag or memory change' and for the ITSTATE advance
+            slots.append({'t': 'any', 'w': rand_dp32(rng), 'name': 'dp32'})
         elif t in ('ldrw', 'strw'):
             # 32-bit load/store whose second halfword starts with every Rt value, SP included (hw2[15:12] = 0b1101 looks like a B<c> halfword)
             rt = rng.choice([rd, rd, 13 if t == 'ldrw' else rd, 12, 8])
@@ -346,7 +370,7 @@ class ITObserver:
                 b.violate('it.effect', t, 'passed_condition_no_effect', 'slot %d: store did not land' % i)
             elif t == 'ldr' and post_r(slot['rd']) != int.from_bytes(M.peek(arm, slot['addr'], 4), 'little'):
                 b.violate('it.effect', t, 'passed_condition_no_effect', 'slot %d: load did not land' % i)
-            if t in ('mov', 'dp16', 'chg', 'str', 'ldr', 'nop', 'b') and not flags_same:
+            if t in ('mov', 'dp16', 'chg', 'str', 'ldr', 'nop', 'b') and slot.get('name') != 'dp32' and not flags_same:
                 b.violate('it.flags', slot.get('name', t), 'flags_set_inside_it_block', 'slot %d (%s, word %#x) changed NZCV %x -> %x inside the IT block' % (
                     i, slot.get('name', t), slot['w'], nzcv, post_cpsr >> 28))
             if t == 'cmp':
